@@ -2,8 +2,23 @@
    Statements only: each theorem restates a lemma of Theorems.v and is closed by [exact]. *)
 From stdpp Require Import gmap list.
 From Coq Require Import NArith.
-From G Require Import Arith Monad Types Inv Raw RawProofs Map MapProofs IterProofs CloneProofs Cost EntryProofs EntryCost Ledger SetProofs Conserve Fill WorldProofs Theorems.
+From G Require Import Arith Monad Types Inv Raw RawProofs Map MapProofs IterProofs CloneProofs Cost EntryProofs EntryCost Ledger SetProofs Conserve Fill WorldProofs WorldLedger Theorems.
 Local Open Scope N_scope.
+
+(* the conservation law over histories.  ledger_op: new, insert, get*, remove / remove_entry, clear,
+   reserve, try_reserve, shrink_to, iter* (with or without value updates), drain (dropped),
+   into_iter, retain, extend, drop.  k_in: the key objects the caller gives (insert, extend);
+   k_out: those handed back (remove_entry, drain and into_iter yields); wdks: the drop ledger;
+   wheld: the key objects stored in the maps of the world, in either table. *)
+Theorem C06_history_conserves_keys : forall c w ts rs w',
+  0 < cR c -> WInv c w -> ok_run c w ts rs w' ->
+  wdks w' ++ wheld w' ++ keys_out ts rs ≡ₚ keys_in ts ++ wdks w ++ wheld w.
+Proof. exact T_C06_history_conserves_keys. Qed.
+
+(* once every map is gone, every key object ever given has been dropped or handed back, once *)
+Theorem C06_all_released_once_maps_are_gone : forall c ts rs w',
+  0 < cR c -> ok_run c world0 ts rs w' -> w_maps w' = ∅ -> wdks w' ++ keys_out ts rs ≡ₚ keys_in ts.
+Proof. exact T_C06_all_released. Qed.
 
 (* storing a new element - with whatever growing (the main table becomes the old one) and
    carrying (elements move from the old table to the new one) the call performs - drops nothing:
@@ -101,14 +116,14 @@ Proof. exact T_C06_drop. Qed.
    exactly once; nothing stays behind *)
 Theorem C06_drain_drops_the_rest_once : forall j s out s',
   lite s -> map_drain j false s = Ok out s' ->
-  exists l, out = map elem3 (firstn (N.to_nat j) l) /\ lite s' /\ elems (s_rt s') = [] /\
+  exists l s1, drain_order s = Ok l s1 /\ out = map elem3 (firstn (N.to_nat j) l) /\ lite s' /\ elems (s_rt s') = [] /\
     dks s' = rev (map ekid (skipn (N.to_nat j) l)) ++ dks s /\
     dvs s' = rev (map ev (skipn (N.to_nat j) l)) ++ dvs s.
 Proof. exact T_C06_drain. Qed.
 
 Theorem C06_into_iter_drops_the_rest_once : forall j s out s',
   lite s -> map_into_iter j s = Ok out s' ->
-  exists l, out = map elem3 (firstn (N.to_nat j) l) /\ lite s' /\ elems (s_rt s') = [] /\
+  exists l s1, drain_order s = Ok l s1 /\ out = map elem3 (firstn (N.to_nat j) l) /\ lite s' /\ elems (s_rt s') = [] /\
     dks s' = rev (map ekid (skipn (N.to_nat j) l)) ++ dks s /\
     dvs s' = rev (map ev (skipn (N.to_nat j) l)) ++ dvs s.
 Proof. exact T_C06_into_iter. Qed.
@@ -134,6 +149,8 @@ Theorem C06_lite_reachable : forall R Esz s,
   Inv R Esz (s_rt s) -> lite s.
 Proof. exact T_C06_lite_reachable. Qed.
 
+Print Assumptions C06_history_conserves_keys.
+Print Assumptions C06_all_released_once_maps_are_gone.
 Print Assumptions C06_moves_drop_nothing.
 Print Assumptions C06_insert_drops_duplicate_key_only.
 Print Assumptions C06_insert_conserves.
